@@ -3,6 +3,7 @@
 //! Exit codes: 0 = ran to completion (verdicts are in the output files; the `check` driver decides),
 //! 2 = tool error. This binary never prints VIOLATION lines itself.
 
+mod inflight;
 mod mem;
 
 use std::{
@@ -35,6 +36,25 @@ fn parse_tlc_json_line(line: &str) -> Option<J> {
     }
 }
 
+/// One implementation object driven by script operations; `step` executes the operation and returns
+/// the observation (the projection the specification defines) after it.
+pub trait Engine {
+    fn step(&mut self, op: &J) -> Result<J, String>;
+}
+
+/// Which top-level components of an observation differ.
+fn diff_fields(exp: &J, got: &J) -> Vec<String> {
+    let mut v = vec![];
+    if let (Some(a), Some(b)) = (exp.as_object(), got.as_object()) {
+        for (k, x) in a {
+            if b.get(k) != Some(x) {
+                v.push(k.clone());
+            }
+        }
+    }
+    v
+}
+
 struct ScriptOutcome {
     /// observed [op, obs] per step
     trace: Vec<J>,
@@ -44,7 +64,11 @@ struct ScriptOutcome {
     nontrivial: bool,
 }
 
-fn run_script(cfg: &mem::MemCfg, script: &J) -> Result<ScriptOutcome, String> {
+fn run_script<E: Engine>(
+    make: &(dyn Fn() -> Result<E, String> + Sync),
+    nontrivial_fn: fn(&J) -> bool,
+    script: &J,
+) -> Result<ScriptOutcome, String> {
     // two script shapes: {"ops": [...], "obs": expected-after-last-op} (one per edge) and
     // {"steps": [{"op":..,"obs":..}, ...]} (one per behaviour, every step compared)
     let (ops, exps): (Vec<J>, Vec<J>) = if let Some(steps) = script.get("steps").and_then(|s| s.as_array()) {
@@ -63,15 +87,14 @@ fn run_script(cfg: &mem::MemCfg, script: &J) -> Result<ScriptOutcome, String> {
     let mut trace = vec![];
     let mut mismatch: Option<J> = None;
     let r = catch_unwind(AssertUnwindSafe(|| -> Result<(), String> {
-        let mut runner = mem::MemRunner::new(cfg)?;
+        let mut runner = make()?;
         for (i, op) in ops.iter().enumerate() {
-            let res = runner.apply(op)?;
-            let obs = runner.observe(op, res);
+            let obs = runner.step(op)?;
             trace.push(json!({"op": op, "obs": obs}));
             if !exps[i].is_null() && obs != exps[i] {
                 mismatch = Some(json!({
                     "kind": "obs",
-                    "fields": mem::diff_fields(&exps[i], &obs),
+                    "fields": diff_fields(&exps[i], &obs),
                     "ops": ops[..=i].to_vec(),
                     "expected": exps[i],
                     "observed": obs,
@@ -79,13 +102,10 @@ fn run_script(cfg: &mem::MemCfg, script: &J) -> Result<ScriptOutcome, String> {
                 break;
             }
         }
-        runner.finish();
+        drop(runner);
         Ok(())
     }));
-    let nontrivial = exps.iter().any(|e| {
-        e["ev"].as_array().map(|a| !a.is_empty()).unwrap_or(false)
-            || e["hs"].as_array().map(|a| !a.is_empty()).unwrap_or(false)
-    });
+    let nontrivial = exps.iter().any(|e| !e.is_null() && nontrivial_fn(e));
     match r {
         Err(p) => {
             let msg = p
@@ -112,7 +132,32 @@ fn run_script(cfg: &mem::MemCfg, script: &J) -> Result<ScriptOutcome, String> {
 }
 
 fn mem_replay(args: &[String]) {
+    let cfg = load_cfg(args);
+    replay_generic(args, &|| mem::MemRunner::new(&cfg), mem::nontrivial);
+}
+
+fn inflight_replay(args: &[String]) {
+    let cfg = load_cfg(args);
+    let callers: Vec<u64> = arg(args, "--callers")
+        .unwrap_or_else(|| "1,2,3".into())
+        .split(',')
+        .map(|x| x.parse().unwrap_or_else(|_| die("bad --callers")))
+        .collect();
+    replay_generic(args, &|| inflight::InflightEngine::new(&cfg, callers.clone()), inflight::nontrivial);
+}
+
+fn load_cfg(args: &[String]) -> mem::MemCfg {
     let cfg_path = arg(args, "--cfg").unwrap_or_else(|| die("--cfg missing"));
+    let cfg: mem::MemCfg =
+        serde_json::from_str(&std::fs::read_to_string(&cfg_path).unwrap_or_else(|e| die(format!("{cfg_path}: {e}"))))
+            .unwrap_or_else(|e| die(format!("{cfg_path}: {e}")));
+    if let Err(e) = cfg.precheck() {
+        die(format!("ratio precheck failed: {e}"));
+    }
+    cfg
+}
+
+fn replay_generic<E: Engine>(args: &[String], make: &(dyn Fn() -> Result<E, String> + Sync), nontrivial_fn: fn(&J) -> bool) {
     let scripts_path = arg(args, "--scripts").unwrap_or_else(|| die("--scripts missing"));
     let out_path = arg(args, "--out").unwrap_or_else(|| die("--out missing"));
     let trace_path = arg(args, "--trace");
@@ -120,12 +165,6 @@ fn mem_replay(args: &[String]) {
     let max_mis: usize = arg(args, "--max-mismatch-traces").and_then(|s| s.parse().ok()).unwrap_or(200);
     let threads: usize = arg(args, "--threads").and_then(|s| s.parse().ok()).unwrap_or(8);
 
-    let cfg: mem::MemCfg =
-        serde_json::from_str(&std::fs::read_to_string(&cfg_path).unwrap_or_else(|e| die(format!("{cfg_path}: {e}"))))
-            .unwrap_or_else(|e| die(format!("{cfg_path}: {e}")));
-    if let Err(e) = cfg.precheck() {
-        die(format!("ratio precheck failed: {e}"));
-    }
     let f = std::fs::File::open(&scripts_path).unwrap_or_else(|e| die(format!("{scripts_path}: {e}")));
     let lines: Vec<String> = std::io::BufReader::new(f)
         .lines()
@@ -145,13 +184,12 @@ fn mem_replay(args: &[String]) {
     let results: Vec<(usize, ScriptOutcome)> = std::thread::scope(|s| {
         let mut hs = vec![];
         for (ci, part) in lines.chunks(chunk).enumerate() {
-            let cfg = &cfg;
             hs.push(s.spawn(move || {
                 let mut v = vec![];
                 for (i, line) in part.iter().enumerate() {
                     let idx = ci * chunk + i;
                     let script = parse_tlc_json_line(line).unwrap_or_else(|| die(format!("unparsable script line {idx}")));
-                    let mut o = run_script(cfg, &script).unwrap_or_else(|e| die(format!("script {idx}: {e}")));
+                    let mut o = run_script(make, nontrivial_fn, &script).unwrap_or_else(|e| die(format!("script {idx}: {e}")));
                     let keep = o.mismatch.is_some() || (stride != usize::MAX && idx % stride == 0);
                     if !keep {
                         o.trace.clear();
@@ -178,9 +216,17 @@ fn mem_replay(args: &[String]) {
     let mut n_roots = 0usize;
     // a mismatch is a *root* if no proper prefix of its operation sequence is itself a mismatching
     // script (every prefix of a script is a script of the same edge set): its pre-state conformed.
+    // with --prop-fields only mismatches touching those components block deeper scripts from being roots
+    let prop_fields: Option<Vec<String>> = arg(args, "--prop-fields").map(|s| s.split(',').map(|x| x.to_string()).collect());
+    let relevant = |m: &J| -> bool {
+        match (&prop_fields, m["fields"].as_array()) {
+            (Some(pf), Some(fs)) => fs.iter().any(|f| pf.iter().any(|p| Some(p.as_str()) == f.as_str()) || f == "panic"),
+            _ => true,
+        }
+    };
     let mis_ops: std::collections::HashSet<String> = results
         .iter()
-        .filter_map(|(_, o)| o.mismatch.as_ref().map(|m| m["ops"].to_string()))
+        .filter_map(|(_, o)| o.mismatch.as_ref().filter(|m| relevant(m)).map(|m| m["ops"].to_string()))
         .collect();
     let is_root = |m: &J| -> bool {
         let ops = m["ops"].as_array().cloned().unwrap_or_default();
@@ -300,6 +346,7 @@ fn main() {
     match args.get(1).map(|s| s.as_str()) {
         Some("mem-replay") => mem_replay(&args[2..]),
         Some("mem-random") => mem_random(&args[2..]),
+        Some("inflight-replay") => inflight_replay(&args[2..]),
         _ => die("usage: harness <mem-replay> ..."),
     }
 }
